@@ -78,6 +78,15 @@ CHECKS = {
          "adjacent groups / commands inside groups are outside the hypothesis (tie only). Block order and full conformance are "
          "decided by the oracle (unique sentinels, span check) and the differential run." + DIFF,
          "4/C19", "Rocq proof (block theorem by induction over the retry loop) over a hand-written model + differential correspondence + span oracle"),
+ "C13": ("proof", "Theorems in coq/Props/C13.v about a transcription of splitter.rs + console.rs (characters, byte lengths, margins, "
+         "pending flags, skip counter, trailing-whitespace trimming): C13_content -- for EVERY document, both forms and ANY two "
+         "widths the renderings are equal once whitespace is removed (simulation with invariant 'same non-blank content, same "
+         "skip counter'); the short form shows exactly the chunks before the first paragraph break of each text and skips the "
+         "rest. The width bound is partial: decided by the oracle. Tie: the Doc of help/error outcomes of generated parsers "
+         "(token list read from its Debug form) is rendered by the model and by the library at 22 (quick) / 300 (thorough) "
+         "widths plus unwrapped and compared byte for byte; the oracle checks content equality and line lengths on the "
+         "library's text alone.",
+         "4/C13", "Rocq proof (lock-step simulation over tokens and chunks) over a hand-written model + byte-exact differential rendering + text oracle"),
 }
 
 NA_REASON = "check not built yet in this revision (machinery under construction; see DESIGN.md section 7 staging)"
